@@ -286,6 +286,42 @@ class ContractFilter(Case):
                             (e is c and not was_opt) or (getattr(e, 'kind', None) == 'optimized' and e.of is c and was_opt))
 
 
+from pyvc.harness import NativeCase
+
+
+class PlainZeroPushSpellings(NativeCase):
+    """finite: every plain-text spelling of a zero push (PUSH0, PUSH 0, PUSH 0x0, PUSH1 0x00, PUSH1 0x0, PUSH2 0x0000) is read into the
+    same item under the same flag value - PUSH0 when the flag is on, PUSH 0 when it is off - so the input block and the block
+    optimize_block re-reads from original_instrs are priced with the flag like the emitted code (seed C17-6: the token PUSH0 kept as
+    its own opcode whatever the flag says)"""
+    prop = 'C17'
+    tier = 'F'
+    name = "plain-text-zero-push(all spellings, both flag values)"
+    functions = (parser_asm.plain_instructions_to_asm_representation, parser_asm.parse_blocks_from_plain_instructions)
+
+    def run_native(self, tier):
+        spellings = ["PUSH0", "PUSH 0", "PUSH 0x0", "PUSH1 0x00", "PUSH1 0x0", "PUSH2 0x0000", "PUSH 0x00"]
+        saved = constants.push0_enabled
+        try:
+            for flag in (True, False):
+                constants._set_push0(flag)
+                seen = {}
+                for sp in spellings:
+                    for ctx in ("%s", "%s ADD", "DUP1 %s SSTORE"):
+                        text = ctx % sp
+                        blk = parser_asm.parse_blocks_from_plain_instructions(text)[0]
+                        z = [i for i in blk.instructions if i.disasm.startswith("PUSH")]
+                        view = [(i.disasm, i.value) for i in z]
+                        want = [("PUSH0", None)] if flag else [("PUSH", "0")]
+                        self.ob('zero push read as %s' % ("PUSH0" if flag else "PUSH 0"), view == want, inputs=dict(text=text, push0_enabled=flag), info=view)
+                        seen.setdefault(ctx, set()).add((blk.bytes_required, blk.gas_spent))
+                for ctx, figs in seen.items():
+                    self.ob('all spellings priced alike under one flag value', len(figs) == 1, inputs=dict(context=ctx, push0_enabled=flag), info=sorted(figs))
+        finally:
+            constants._set_push0(saved)
+        self.assumptions = ("finite: 7 spellings x 3 contexts x 2 flag values",)
+
+
 def cases(tier='quick'):
     from . import c08
     cs = [IsPush0(d) for d in ("PUSH", "PUSH0", "ADD", "PUSH [tag]")]
@@ -297,4 +333,5 @@ def cases(tier='quick'):
     cs += [IdToAsmPush(d) for d in ("PUSH", "PUSH0")]
     cs.append(ExecuteGasolOrder())
     cs.append(ContractFilter())
+    cs.append(PlainZeroPushSpellings())
     return cs, {}
